@@ -82,11 +82,17 @@ func runC15(r *core.Run) {
 	}
 	base := map[int]*core.Obs{}
 	for i := range obs {
+		if obs[i].Skipped {
+			continue // not executed: the run had already met many calls that do not return
+		}
 		if opCfg[i] == -1 {
 			base[opCase[i]] = &obs[i]
 		}
 	}
 	for i := range obs {
+		if obs[i].Skipped {
+			continue // not executed: the run had already met many calls that do not return
+		}
 		o, op, c := &obs[i], &ops[i], &cases[opCase[i]]
 		r.Cases++
 		desc := map[string]interface{}{"input": c.in.Name, "entry": c.entry, "cut": c.cut, "malformation": c.what, "logger": op.Level}
@@ -168,6 +174,9 @@ func runLogAlign(r *core.Run) {
 	}
 	var b *core.Obs
 	for i := range obs {
+		if obs[i].Skipped {
+			continue // not executed: the run had already met many calls that do not return
+		}
 		o, op, k := &obs[i], &ops[i], keys[i]
 		r.Cases++
 		if op.Level == "" {
